@@ -1,9 +1,12 @@
 /-
   Spec.Judge — evaluates the properties on what the *implementation* returned.  Line protocol:
   one request per line, tokens `key=value` separated by single spaces, first token = command.
-  Output: one line per request, tokens `key=value`.
+  Output: one line per request, tokens `key=value`.  Verdict fields are `cNN=ok` or `cNN=<reason>`;
+  `cNN=-` means "not judged in this request".
 -/
 import Spec.Decode
+import Spec.Penalty
+import Spec.Sizing
 
 namespace Spec
 
@@ -37,35 +40,72 @@ def parseReq (line : String) : String × Req :=
 def Req.get (r : Req) (k : String) : Option String := (r.find? (·.1 == k)).map (·.2)
 def Req.getD (r : Req) (k : String) (d : String) : String := (r.get k).getD d
 
-/-- expected payload parts: `eci:hex` separated by commas; eci = `-` for none -/
-def parseExpected (s : String) : List (Option Nat × List Nat) :=
+def intOfString (s : String) : Option Int :=
+  if s.startsWith "-" then (s.drop 1).toNat?.map (fun n => -(n : Int)) else s.toNat?.map (fun n => (n : Int))
+def optNat (s : String) : Option Nat := if s == "-" then none else s.toNat?
+def optInt (s : String) : Option Int := if s == "-" then none else intOfString s
+def optBool (s : String) : Option Bool := if s == "1" then some true else if s == "0" then some false else none
+
+/-! ### C01: payload and ECI headers -/
+
+/-- expected parts `canon:hex,…`: canon = Python codec name of the part's encoding (`-` = ISO-8859-1
+    or irrelevant), hex = the content bytes of the part -/
+def parseExpected (s : String) : List (String × List Nat) :=
   if s == "" || s == "-" then [] else
   (s.splitOn ",").map (fun p =>
     match p.splitOn ":" with
-    | [e, h] => (if e == "-" then none else e.toNat?, bytesOfHex h)
-    | _ => (none, []))
+    | [e, h] => (e, bytesOfHex h)
+    | _ => ("?", []))
 
-/-- merge adjacent parts carrying the same ECI marker (segno merges same-mode same-encoding parts;
-    the property speaks about bytes and about the presence of the header, not about segmentation) -/
-def mergeParts : List (Option Nat × List Nat) → List (Option Nat × List Nat)
-  | [] => []
-  | [x] => [x]
-  | (e1, b1) :: (e2, b2) :: rest =>
-    if e1 == e2 then mergeParts ((e1, b1 ++ b2) :: rest) else (e1, b1) :: mergeParts ((e2, b2) :: rest)
-termination_by l => l.length
+def isLatin1 (canon : String) : Bool := canon == "-" || canon == "iso8859-1"
 
-def showSeg (s : Segment) : String :=
-  s!"{s.mode}:{match s.eci with | some e => toString e | none => "-"}:{s.count}:{hexOfBytes s.bytes}"
+/-- consume whole expected parts that make up exactly `bytes`; returns their codec names and the rest -/
+def takeParts : Nat → List Nat → List (String × List Nat) → Option (List String × List (String × List Nat))
+  | 0, _, _ => none
+  | _ + 1, [], rest =>
+    -- zero-length segment: consume empty parts greedily
+    match rest with
+    | (c, []) :: more => some ([c], more)
+    | _ => some ([], rest)
+  | f + 1, bytes, (c, b) :: rest =>
+    if b.length ≤ bytes.length && bytes.take b.length == b then
+      if b.length == bytes.length then some ([c], rest)
+      else (takeParts f (bytes.drop b.length) rest).map (fun (cs, r) => (c :: cs, r))
+    else none
+  | _ + 1, _ :: _, [] => none
 
-def intOfString (s : String) : Option Int :=
-  if s.startsWith "-" then (s.drop 1).toNat?.map (fun n => -(n : Int)) else s.toNat?.map (fun n => (n : Int))
+/-- C01 on decoded segments: bytes equal part by part; with `eci` every byte-mode segment whose codec
+    is not ISO-8859-1 carries the ECI header of that codec; otherwise, and in Micro symbols, none -/
+def judgeC01 (v : Int) (segs : List Segment) (exp : List (String × List Nat)) (eciReq : Bool) : String :=
+  let rec go (segs : List Segment) (exp : List (String × List Nat)) : String :=
+    match segs with
+    | [] => if exp.all (fun p => p.2.isEmpty) then "ok" else "payload-truncated"
+    | s :: rest =>
+      match takeParts (exp.length + 2) s.bytes exp with
+      | none => "payload-mismatch"
+      | some (canons, exp') =>
+        let canon := canons.headD "-"
+        if !(canons.all (· == canon)) then "merged-parts-of-different-encodings"
+        else
+          let want : Option (Option Nat) :=       -- none = header optional (alias spelling of Latin-1)
+            if !eciReq || v < 1 || s.mode != 4 then some none
+            else if isLatin1 canon then (if canon == "-" then some none else none)
+            else some ((eciTable.find? (·.1 == canon)).map (·.2))
+          match want with
+          | none => if s.eci == none || s.eci == some 3 then go rest exp' else "eci-header-wrong-for-latin1"
+          | some w => if s.eci == w then go rest exp' else s!"eci-header-expected-{w}-found-{s.eci}"
+  go segs exp
 
-/-- `sym`: decode one symbol and judge C01/C02/C03/C13 on it -/
+/-! ### the `sym` command: everything about one symbol -/
+
+def segInfos (segs : List Segment) : List SegInfo :=
+  segs.map (fun s => { mode := s.mode, count := s.count, eci := s.eci.isSome })
+
 def judgeSym (r : Req) : String :=
   let id := r.getD "id" "?"
   let m := parseMatrix (r.getD "m" "")
   match decode m with
-  | .error e => s!"id={id} hdr={e} c01=hdr c02={e} c03=hdr c13=hdr"
+  | .error e => s!"id={id} hdr={e} c01=hdr-{e} c02={e} c03=hdr-{e} c04=hdr c05=hdr c06=hdr c07=hdr c13=hdr-{e}"
   | .ok d =>
     let h := d.header
     let cap := d.stream.length
@@ -74,38 +114,142 @@ def judgeSym (r : Req) : String :=
       (match (r.get "ev").bind intOfString with | some ev => if ev != h.version then some s!"version-reported-{ev}-matrix-{h.version}" else none | none => none)
       <|> (match (r.get "ee").bind intOfString with | some ee => if ee != h.level then some s!"error-reported-{ee}-matrix-{h.level}" else none | none => none)
       <|> (match (r.get "em").bind String.toNat? with | some em => if em != h.mask then some s!"mask-reported-{em}-matrix-{h.mask}" else none | none => none)
+      <|> (match r.get "ismicro" with | some x => if (x == "1") != isMicro h.version then some s!"is_micro-reported-{x}" else none | none => none)
+      <|> (match (r.get "dborder").bind String.toNat? with | some b => if b != (if isMicro h.version then 2 else 4) then some s!"default_border_size-reported-{b}" else none | none => none)
+      <|> (match (r.get "symsize").bind String.toNat? with | some x => if x != m.size + 2 * (if isMicro h.version then 2 else 4) then some s!"symbol_size-reported-{x}" else none | none => none)
+      <|> (match r.get "desig" with
+           | some x =>
+             let vn := if h.version < 1 then s!"M{h.version + 4}" else toString h.version
+             let ln := if h.level == -1 then "" else if h.level == 1 then "-L" else if h.level == 0 then "-M" else if h.level == 3 then "-Q" else "-H"
+             if x != vn ++ ln then some s!"designator-reported-{x}-matrix-{vn}{ln}" else none
+           | none => none)
     let c02 := match d.fnBad with
       | some (i, j) => s!"function-module-{i}-{j}"
       | none => match metaBad with | some e => e | none => "ok"
-    -- C03
-    let remBad := !allZero d.blocks.remainder
     let c03 := if d.badBlocks != 0 then s!"invalid-rs-blocks-{d.badBlocks}" else "ok"
+    -- C06
+    let c06 :=
+      match r.get "reqmask" with
+      | some rm =>
+        if rm != "-" then (if rm.toNat? == some h.mask then "ok" else s!"requested-mask-{rm}-used-{h.mask}")
+        else
+          let (best, scores) := bestMask h.version m h.mask
+          if best == h.mask then "ok" else s!"mask-{h.mask}-but-optimum-{best}-scores-{scores}"
+      | none => "-"
+    let common := s!"id={id} hdr=ok v={h.version} lvl={h.level} mask={h.mask} cap={cap} c02={c02} c03={c03} c06={c06}"
     match d.parsed with
     | .error e =>
-      s!"id={id} hdr=ok v={h.version} lvl={h.level} mask={h.mask} cap={cap} c02={c02} c03={c03} parse={e} c01=parse-{e} c13=parse-{e} cw={hexOfBytes d.blocks.data.flatten}"
+      s!"{common} parse={e} c01=parse-{e} c04=parse c05=parse c07=parse c13=parse-{e} cw={hexOfBytes d.blocks.data.flatten}"
     | .ok p =>
       let tail := d.stream.drop p.endPos
       let c13 :=
-        if remBad then "remainder-bits-nonzero"
+        if !allZero d.blocks.remainder then "remainder-bits-nonzero"
         else if tail == isoTail h.version cap p.endPos then "ok"
         else if tail == d1Tail h.version cap p.endPos then "d1"
         else "bad-tail"
-      let got := mergeParts (p.segments.map (fun s => (s.eci, s.bytes)))
+      let eciReq := r.getD "eci" "0" == "1"
       let c01 := match r.get "exp" with
         | none => "-"
-        | some e =>
-          let exp := mergeParts (parseExpected e)
-          if got == exp then "ok"
-          else if (got.map Prod.snd).flatten == (exp.map Prod.snd).flatten then "eci-header-mismatch"
-          else "payload-mismatch"
+        | some e => judgeC01 h.version p.segments (parseExpected e) eciReq
+      -- C04 / C05 on the decoded segments
+      let infos := segInfos p.segments
+      let micro := optBool (r.getD "micro" "-")
+      let reqLevel := optNat (r.getD "reqerr" "-")
+      let reqVer := optInt (r.getD "reqver" "-")
+      let isSa := p.sa.isSome
+      let c04 := match r.get "micro" with
+        | none => "-"
+        | some _ =>
+          match neededBits h.version infos isSa with
+          | none => "mode-not-available-in-version"
+          | some need =>
+            if need > cap then s!"content-{need}-bits-exceeds-capacity-{cap}"
+            else if need != p.endPos then s!"stream-length-{p.endPos}-vs-iso-bit-count-{need}"
+            else match reqVer with
+              | some rv => if rv == h.version then "ok" else s!"requested-version-{rv}-got-{h.version}"
+              | none =>
+                match expectedVersion micro eciReq reqLevel infos isSa with
+                | some ev => if ev == h.version then "ok" else s!"version-{h.version}-but-smallest-fitting-{ev}"
+                | none => "nothing-fits-but-symbol-returned"
+      let c05 := match r.get "boost" with
+        | none => "-"
+        | some b =>
+          let el := expectedLevel h.version reqLevel (b == "1") infos isSa
+          if h.level == el then "ok" else s!"level-{h.level}-expected-{el}"
+      let c07 := match r.get "content" with
+        | none => "-"
+        | some c =>
+          let data := bytesOfHex c
+          match optNat (r.getD "reqmode" "-"), p.segments with
+          | none, [s] => if s.mode == autoMode data then "ok" else s!"mode-{s.mode}-but-first-applicable-{autoMode data}"
+          | some rm, [s] => if s.mode != rm then s!"mode-{s.mode}-but-requested-{rm}"
+                            else if representable rm data then "ok" else s!"content-not-representable-in-mode-{rm}"
+          | _, _ => "not-single-segment"
+      let c07 := match (r.get "emode"), p.segments with
+        | some em, [s] => if c07 == "ok" || c07 == "-" then (if em == toString s.mode then c07 else s!"mode-reported-{em}-symbol-{s.mode}") else c07
+        | _, _ => c07
       let sa := match p.sa with | some (a, b, c) => s!"{a}:{b}:{c}" | none => "-"
-      let segs := ",".intercalate (p.segments.map showSeg)
-      s!"id={id} hdr=ok v={h.version} lvl={h.level} mask={h.mask} cap={cap} c02={c02} c03={c03} parse=ok end={p.endPos} sa={sa} c01={c01} c13={c13} segs={segs} cw={hexOfBytes d.blocks.data.flatten}"
+      let segs := ",".intercalate (p.segments.map (fun s =>
+        s!"{s.mode}:{match s.eci with | some e => toString e | none => "-"}:{s.count}"))
+      s!"{common} parse=ok end={p.endPos} sa={sa} c01={c01} c04={c04} c05={c05} c07={c07} c13={c13} segs={segs} bytes={hexOfBytes (p.segments.map (·.bytes)).flatten} cw={hexOfBytes d.blocks.data.flatten}"
+
+/-! ### the `fit` command: what should `make` do for single-part content (C04 / C07 / C14 refusals) -/
+
+/-- expected outcome for single-part content `data` (bytes), requested mode / level / version -/
+def judgeFit (r : Req) : String :=
+  let id := r.getD "id" "?"
+  let data := bytesOfHex (r.getD "content" "")
+  let reqMode := optNat (r.getD "reqmode" "-")
+  let micro := optBool (r.getD "micro" "-")
+  let reqLevel := optNat (r.getD "reqerr" "-")
+  let reqVer := optInt (r.getD "reqver" "-")
+  let eciReq := r.getD "eci" "0" == "1"
+  let eciHeader := eciReq && r.getD "latin1" "1" == "0"     -- would a byte segment carry an ECI header?
+  let mode := match reqMode with | some m => m | none => autoMode data
+  if !representable mode data then s!"id={id} expect=refused why=not-representable-in-mode-{mode}" else
+  let info : SegInfo := { mode := mode, count := charCount mode data.length, eci := eciHeader && mode == 4 }
+  match reqVer with
+  | some rv =>
+    if fits rv (sizingLevel reqLevel rv) [info] false then s!"id={id} expect=version v={rv}"
+    else if (cciBits mode rv).isNone then s!"id={id} expect=refused why=mode-not-in-version"
+    else s!"id={id} expect=overflow"
+  | none =>
+    match expectedVersion micro eciReq reqLevel [info] false with
+    | some v => s!"id={id} expect=version v={v}"
+    | none => s!"id={id} expect=overflow"
+
+/-! ### the `seq` command: a Structured Append sequence (C08) -/
+
+def xorAll (bs : List Nat) : Nat := bs.foldl (· ^^^ ·) 0
+
+def judgeSeq (r : Req) : String :=
+  let id := r.getD "id" "?"
+  let sas := (r.getD "sa" "").splitOn ","
+  let payloads := ((r.getD "bytes" "").splitOn ",").map bytesOfHex
+  let msg := bytesOfHex (r.getD "msg" "")
+  let n := payloads.length
+  let versions := ((r.getD "vs" "").splitOn ",").filterMap intOfString
+  let c08 :=
+    if n < 1 || n > 16 then s!"symbol-count-{n}"
+    else if versions.any (· < 1) then "micro-symbol-in-sequence"
+    else if payloads.flatten != msg then "reassembled-payload-differs"
+    else if (match optNat (r.getD "count" "-") with | some k => k != n | none => false) then s!"symbol-count-{n}-requested-{r.getD "count" "-"}"
+    else if (match optInt (r.getD "ver" "-") with | some v => versions.any (· != v) | none => false) then "version-differs-from-request"
+    else if n > 1 then
+      let par := xorAll msg
+      let bad := (sas.zipIdx).find? (fun (s, i) => s != s!"{i}:{n - 1}:{par}")
+      match bad with
+      | some (s, i) => s!"header-of-symbol-{i}-is-{s}-expected-{i}:{n - 1}:{par}"
+      | none => if sas.length == n then "ok" else "header-count"
+    else "ok"
+  s!"id={id} c08={c08}"
 
 def judgeLine (line : String) : String :=
   let (cmd, r) := parseReq line
   match cmd with
   | "sym" => judgeSym r
+  | "fit" => judgeFit r
+  | "seq" => judgeSeq r
   | "" => ""
   | _ => s!"error=unknown-command-{cmd}"
 
